@@ -12,7 +12,7 @@ Traces == ndJsonDeserialize(IOEnv.TRACE_FILE)
 VARIABLES tid, l, nfail
 tvars == <<vars, tid, l, nfail>>
 Ev == Traces[tid].events[l]
-St(o) == IF o.n = 0 THEN None ELSE [n |-> o.n, sum |-> o.sum, sq |-> o.sq]
+St(o) == IF o.n = 0 /\ Len(o.sum) = 0 THEN None ELSE [n |-> o.n, sum |-> o.sum, sq |-> o.sq]
 P(o) == [name |-> o.name, kind |-> o.kind]
 FileOf(o) == CASE o.kind = "absent" -> Absent
                [] o.kind \in {"npy", "raw"} -> [kind |-> o.kind, stats |-> St(o.stats)]
@@ -21,9 +21,11 @@ Act == CASE Ev.op = "accv" -> AccVector(Ev.i, Ev.v)
          [] Ev.op = "acct" -> AccTensor(Ev.i, VectorsOf(Ev.flat, Ev.shape, Ev.axis1))   \* the spec reads the layout
          [] Ev.op = "save" -> Save(Ev.i, P(Ev.p), Ev.key, Ev.ow)
          [] Ev.op = "load" -> Load(Ev.j, P(Ev.p), Ev.key)
+         [] Ev.op = "template" -> Template(P(Ev.p), Ev.D, Ev.key)
 Obs == CASE Ev.op \in {"accv", "acct"} -> inst'[Ev.i] = St(Ev.stats)
          [] Ev.op = "save" -> fs'[P(Ev.p)] = FileOf(Ev.file) /\ inst'[Ev.i] = St(Ev.stats)
          [] Ev.op = "load" -> (Ev.err = "" => inst'[Ev.j] = St(Ev.stats))
+         [] Ev.op = "template" -> fs'[P(Ev.p)] = FileOf(Ev.file)
 StepErr == Act /\ err' # Ev.err
 StepObs == Act /\ err' = Ev.err /\ ~Obs
 TStep == /\ tid <= Len(Traces) /\ l <= Len(Traces[tid].events)
